@@ -154,7 +154,7 @@ int main(int argc, char** argv) {
                         }
                     } else if (mode == "bool") { bool b = false; xpath.execute(node, res, cl, ctx, b); out += std::string(",\"res\":{\"t\":\"bool\",\"v\":") + (b ? "true" : "false") + "}"; }
                     else if (mode == "num") { double x = 0; xpath.execute(node, res, cl, ctx, x); out += ",\"res\":{\"t\":\"num\",\"v\":" + numJson(x) + "}"; }
-                    else if (mode == "str") { XalanDOMString s; xpath.execute(node, res, cl, ctx, s); out += ",\"res\":{\"t\":\"str\",\"v\":" + cpArray(s) + "}"; }
+                    else if (mode == "str") { XalanDOMString s; s.push_back('P'); s.push_back('R'); s.push_back('E');   /* the result must be APPENDED */ xpath.execute(node, res, cl, ctx, s); out += ",\"res\":{\"t\":\"str\",\"v\":" + cpArray(s) + "}"; }
                     else if (mode == "chars") { CharsCollector cc; xpath.execute(node, res, cl, ctx, cc, &FormatterListener::characters); out += ",\"res\":{\"t\":\"str\",\"v\":" + cpArray(cc.text) + "}"; }
                     else if (mode == "nodelist") {
                         MutableNodeRefList l(mm);
